@@ -279,49 +279,65 @@ func sysAskMain(args []string) {
 			wg.Add(1)
 			go func() {
 				defer wg.Done()
+				panicked := false
 				for k := 1; k <= nasks; k++ {
 					base := c*100 + k*10 // ids base+1..base+3
 					var want, got []int
 					var err error
-					ctx := context.WithValue(bg, idKey{}, base+1)
-					switch kind[k-1] {
-					case 0:
-						want = []int{base + 1}
-						w.Raw(pline{Op: "inj", Req: base + 1, X: base + 1}.norm())
-						var resp any
-						resp, err = sender.Ask(ctx, slow, wrapperspb.Int32(int32(base+1)), 8*time.Millisecond)
-						if v, ok := resp.(*wrapperspb.Int32Value); ok && err == nil {
-							got = []int{int(v.GetValue())}
-						}
-					case 1, 2:
-						n := 2 + kind[k-1]%2
-						msgs := make([]any, n)
-						for i := range msgs {
-							want = append(want, base+1+i)
-							msgs[i] = wrapperspb.Int32(int32(base + 1 + i))
-							w.Raw(pline{Op: "inj", Req: base + 1 + i, X: base + 1}.norm()) // one context for the whole batch
-						}
-						var ch chan any
-						ch, err = sender.BatchAsk(ctx, fast[tgt[k-1]], msgs, 20*time.Second)
-						if err == nil {
-							for resp := range ch {
-								if v, ok := resp.(*wrapperspb.Int32Value); ok {
-									got = append(got, int(v.GetValue()))
-								} else {
-									got = append(got, -1)
+					func() {
+						// a reply that does not belong to the request can make the client panic (index out of range in
+						// RemoteBatchAsk): record it as the outcome of this exchange instead of losing the whole run
+						defer func() {
+							if p := recover(); p != nil {
+								got = append(got, -9)
+								w.Raw(pline{Op: "Result", C: "c" + strconv.Itoa(c), N: len(want), Want: want, Got: got, Err: "", Br: fmt.Sprint("panic: ", p)}.norm())
+								panicked = true
+							}
+						}()
+						ctx := context.WithValue(bg, idKey{}, base+1)
+						switch kind[k-1] {
+						case 0:
+							want = []int{base + 1}
+							w.Raw(pline{Op: "inj", Req: base + 1, X: base + 1}.norm())
+							var resp any
+							resp, err = sender.Ask(ctx, slow, wrapperspb.Int32(int32(base+1)), 8*time.Millisecond)
+							if v, ok := resp.(*wrapperspb.Int32Value); ok && err == nil {
+								got = []int{int(v.GetValue())}
+							}
+						case 1, 2:
+							n := 2 + kind[k-1]%2
+							msgs := make([]any, n)
+							for i := range msgs {
+								want = append(want, base+1+i)
+								msgs[i] = wrapperspb.Int32(int32(base + 1 + i))
+								w.Raw(pline{Op: "inj", Req: base + 1 + i, X: base + 1}.norm()) // one context for the whole batch
+							}
+							var ch chan any
+							ch, err = sender.BatchAsk(ctx, fast[tgt[k-1]], msgs, 20*time.Second)
+							if err == nil {
+								for resp := range ch {
+									if v, ok := resp.(*wrapperspb.Int32Value); ok {
+										got = append(got, int(v.GetValue()))
+									} else {
+										got = append(got, -1)
+									}
 								}
 							}
+						default:
+							want = []int{base + 1}
+							w.Raw(pline{Op: "inj", Req: base + 1, X: base + 1}.norm())
+							var resp any
+							resp, err = sender.Ask(ctx, fast[tgt[k-1]], wrapperspb.Int32(int32(base+1)), 20*time.Second)
+							if v, ok := resp.(*wrapperspb.Int32Value); ok && err == nil {
+								got = []int{int(v.GetValue())}
+							} else if err == nil {
+								got = []int{-1}
+							}
 						}
-					default:
-						want = []int{base + 1}
-						w.Raw(pline{Op: "inj", Req: base + 1, X: base + 1}.norm())
-						var resp any
-						resp, err = sender.Ask(ctx, fast[tgt[k-1]], wrapperspb.Int32(int32(base+1)), 20*time.Second)
-						if v, ok := resp.(*wrapperspb.Int32Value); ok && err == nil {
-							got = []int{int(v.GetValue())}
-						} else if err == nil {
-							got = []int{-1}
-						}
+					}()
+					if panicked {
+						panicked = false
+						continue
 					}
 					es := ""
 					if err != nil {
